@@ -339,7 +339,17 @@ class Check:
         shutil.rmtree(md, ignore_errors=True)
         with open(os.path.join(self.out, "tlc_" + name + ".log"), "w") as f:
             f.write(res.out)
+        pending = None   # TLC pretty-prints long values over several lines: join them until the brackets balance
         for ln in res.out.splitlines():
+            if pending is not None:
+                pending += " " + ln.strip()
+                if pending.count("<<") <= pending.count(">>"):
+                    res.prints.append(pending)
+                    pending = None
+                continue
+            if ln.startswith("<<") and ln.count("<<") > ln.count(">>"):
+                pending = ln.strip()
+                continue
             if ln.startswith('"') or ln.startswith("<<"):
                 res.prints.append(ln)
             m = re.match(r"(\d+) states generated, (\d+) distinct states found", ln)
